@@ -18,6 +18,7 @@ TR = []          # the trace of the request being executed
 SIDE = {}        # side observations of the request being executed (not part of the trace)
 LISTEN = {}      # what the transport-level listeners of the request being executed do to ctx.out_string
 AUX = {}         # what the auxiliary method of the request being executed does ('mode')
+LAZY_OUT = ('json', 'jsonp', 'http')    # out protocols whose out_string is written when it is consumed
 GETP = ('http', 'httpout')     # protocols driven by GET requests without a body (HttpRpc in)
 USERHDR = []     # response header values the user function of the request being executed sets
 
@@ -100,7 +101,7 @@ def impl_env():
     if _ENV:
         return _ENV
     logging.disable(logging.CRITICAL)
-    from spyne import Application, Service, rpc, Unicode, Integer, Iterable, Fault, Ignored, ComplexModel, ByteArray
+    from spyne import Application, Service, rpc, Unicode, Integer, Iterable, Fault, Ignored, ComplexModel, ByteArray, AnyDict
     from spyne.protocol.http import HttpPattern
     from spyne.server.http import HttpRedirect
     from spyne.error import (ResourceNotFoundError, InvalidCredentialsError, RequestNotAllowed,
@@ -191,6 +192,27 @@ def impl_env():
             set_user_headers(ctx)
             ctx.no_such_attribute = 1
             return s
+
+        @rpc(Unicode, _returns=AnyDict)
+        def unser(ctx, code):           # a value a lazy out protocol (json.dumps at consumption) cannot write
+            TR.append(['user'])
+            set_user_headers(ctx)
+            if code:
+                ctx.transport.resp_code = code
+            return {'answer': object()}
+
+        @rpc(Unicode, _returns=Iterable(AnyDict))
+        def ugen(ctx, s):               # ... yielded by a generator method
+            TR.append(['user'])
+            set_user_headers(ctx)
+            yield {'a': 1}
+            yield {'a': object()}
+
+        @rpc(Unicode, _returns=(Unicode, Integer))
+        def two(ctx, mode):             # declared with two return values, returns a sequence of another length / nothing
+            TR.append(['user'])
+            set_user_headers(ctx)
+            return {'empty': (), 'list0': [], 'one': ('a',), 'three': ('a', 1, 2), 'ok': ('a', 1), 'none': None}[mode]
 
         @rpc(Unicode, _returns=ByteArray, _mtom=True)
         def mt(ctx, s):                 # MTOM packaging of the response (Soap11 only)
@@ -525,6 +547,13 @@ def execute(case, validate=False):
                 # a finalisation listener failed at the end of the body: the server sees the exception ...
                 TR.append(['lraise'])
                 break
+            except AssertionError:
+                raise
+            except Exception as e:
+                # producing the body failed in the server's hands (a lazy out_string): after start_response this
+                # is the server's to report; it goes on to close() the iterable
+                SIDE['body_exception'] = type(e).__name__
+                break
             TR.append(['chunk', len(c), isinstance(c, bytes)])
             body.append(c)
             n += 1
@@ -539,10 +568,16 @@ def execute(case, validate=False):
                 TR.append(['lraise'])
     except AssertionError as e:
         if not validate:
-            raise
-        SIDE['validator_error'] = str(e)[:300]
-        if hasattr(it, 'closed'):
-            it.closed = True       # keep the validator's __del__ quiet, the complaint is recorded
+            # an `assert` of the code under test: an exception out of the callable like any other
+            TR.append(['crash', 'AssertionError'])
+            SIDE['crash_detail'] = 'AssertionError: %s' % str(e)[:200]
+            e = None
+        if e is None:
+            pass
+        else:
+            SIDE['validator_error'] = str(e)[:300]
+            if hasattr(it, 'closed'):
+                it.closed = True       # keep the validator's __del__ quiet, the complaint is recorded
     except Exception as e:
         TR.append(['crash', crash_name(e)])
         SIDE['crash_detail'] = '%s: %s' % (type(e).__name__, str(e)[:200])
@@ -614,6 +649,17 @@ def model_query(case, side, ref):
                 req['sized'] = ref.get('sized', False)
                 if m == 'mt':           # (MTOM packaging fails under Python 3: when guarded, a serialisation failure)
                     req['serFails'] = True
+                if m in ('unser', 'ugen') and case['proto'] in LAZY_OUT:
+                    req['dumpFails'] = True
+                    # what the stream yields before json.dumps fails: JsonP's callback name and bracket, else nothing
+                    req['chunks'], req['sized'] = ([2, 1] if case['proto'] == 'jsonp' else []), False
+                    req['preset'] = status_int(a.get('code'))
+                    if m == 'ugen':
+                        req['gen'] = 'yields'
+                if m in ('unser', 'ugen') and case['proto'] not in LAZY_OUT:
+                    req['preset'] = status_int(a.get('code'))
+                if m == 'two' and case['proto'] in LAZY_OUT and a.get('mode') in ('empty', 'list0', 'one', 'none'):
+                    req['serFails'] = True      # the dict-document serialiser refuses the wrong number of values
                 if m == 'redir':
                     req['preset'] = 302
                 if m == 'respond':
@@ -668,7 +714,8 @@ def reference(case):
             _REF[key] = {'wsdlLen': sum(e[1] for e in tr if e[0] == 'chunk')}
         return _REF[key]
     call = case['call']
-    if call['m'] in ('raw', 'fail', 'frozen', 'mt', '#junk', '#unknown', '#doc'):
+    if call['m'] in ('raw', 'fail', 'frozen', 'mt', '#junk', '#unknown', '#doc') or \
+            (call['m'] in ('unser', 'ugen') and case['proto'] in LAZY_OUT):
         return {}
     key = (case['proto'], json.dumps(call, sort_keys=True))
     if key not in _REF:
@@ -906,6 +953,12 @@ def measure_facts():
     c = mkcase('jsonp', 'val', {'n': -3})
     f['errMaterialisesIterator'] = cl_matches(c)
     WITNESS['errMaterialisesIterator'] = c
+    # where the unchunked response of a lazy out protocol is joined: a value json.dumps cannot write must end in a fault
+    unch = dict(BASE_CFG, chunked=False)
+    ok_plain = not any(e[0] == 'crash' for e in run(mkcase('json', 'unser', {}, cfg=unch)))
+    ok_gen = not any(e[0] == 'crash' for e in run(mkcase('json', 'ugen', {'s': 'a'}, cfg=unch)))
+    f['lateJoinGuard'] = 'all' if ok_plain and ok_gen else 'generatorOnly' if ok_gen else 'none'
+    WITNESS['lateJoinGuard'] = mkcase('json', 'unser', {}, cfg=unch) if not ok_plain else mkcase('json', 'ugen', {'s': 'a'}, cfg=unch)
     tr = run(mkcase('json', 'gen', {'n': 2, 'mode': 'late'}))
     f['lateErrorKeepsOkStatus'] = next((e[1] for e in tr if e[0] == 'sr'), 0) == f['okStatus']
     return f
@@ -915,7 +968,7 @@ GOOD = {'closeTiming': 'afterBody', 'wsdlCloseTiming': 'afterBody', 'joinKind': 
         'genGuard': True, 'soapEmptyBodyFault': True, 'wsdlErrBytes': True, 'wsdlErrClosed': True,
         'returnEventBeforeLength': True, 'errorEventBeforeLength': True, 'auxGuardOk': True, 'auxGuardError': True,
         'headerTuplesExpanded': True, 'finalizeClearedFirst': True, 'errMaterialisesGenerator': True,
-        'errMaterialisesIterator': True}
+        'errMaterialisesIterator': True, 'lateJoinGuard': 'all'}
 SWITCH_WHAT = {
     'closeTiming': 'handle_rpc/handle_error close the context (method_context_closed, wsgi_close) while building the iterable, before the first body chunk',
     'wsdlCloseTiming': 'handle_wsdl_request closes the context before returning the document',
@@ -937,6 +990,8 @@ SWITCH_WHAT = {
                                 'Content-Length announces a body that was used up by the sum',
     'errMaterialisesIterator': 'handle_error sums the lengths of a one-shot iterator out_string (itertools.chain of JsonP) without '
                                'turning it into a list first: Content-Length announces a body that was used up by the sum',
+    'lateJoinGuard': 'with chunked=False the response of a lazy out protocol is joined outside the guarded region of handle_rpc: a value '
+                     'the protocol cannot write (json.dumps at consumption) raises out of the callable before start_response',
     'errorEventBeforeLength': "handle_error fires 'wsgi_exception' after it computed Content-Length: a listener that rewrites the "
                               'fault document leaves a Content-Length that is not the number of body bytes',
 }
@@ -977,6 +1032,7 @@ def facts13 : Facts13 where
   finalizeClearedFirst := %s
   errMaterialisesGenerator := %s
   errMaterialisesIterator := %s
+  lateJoinGuard := .%s
   headerTuplesExpanded := %s
   lateErrorKeepsOkStatus := %s
 
@@ -985,7 +1041,7 @@ end SpyneModel.Generated
        f['soapBadLengthClass'], f['soapEmptyBodyClass'], b(f['wsdlErrBytes']), b(f['wsdlErrClosed']), tab(f['statusPlain']), tab(f['statusSoap']), f['preRejectStatus'],
        f['wsdlOkStatus'], f['wsdlUnavailableStatus'], f['wsdlErrorStatus'], f['okStatus'], b(f['returnEventBeforeLength']), b(f['errorEventBeforeLength']),
        b(f['auxGuardOk']), b(f['auxGuardError']), b(f['finalizeClearedFirst']), b(f['errMaterialisesGenerator']),
-       b(f['errMaterialisesIterator']), b(f['headerTuplesExpanded']),
+       b(f['errMaterialisesIterator']), f['lateJoinGuard'], b(f['headerTuplesExpanded']),
        b(f['lateErrorKeepsOkStatus']))
 
 
@@ -1072,6 +1128,22 @@ def gen_round4(ctx, add):
         for m, a in (('echo', {'s': 'hi'}), ('val', {'n': -3}), ('fail', {'kind': 'client'}), ('#unknown', {})):
             for abort in (None, 1):
                 add(mkcase(proto, m, a, deser_raises=True, abort=abort, cfg=dict(BASE_CFG, chunked=abort is None)), 'round4-deser-handler')
+    # values the lazy out protocols cannot write (failure at dump time) x ordinary / generator method x chunked x consumer
+    i = 0
+    for proto in ('json', 'jsonp', 'http', 'soap'):
+        for m, a in (('unser', {}), ('unser', {'code': '201 Created'}), ('ugen', {'s': 'a'})):
+            for chunked in (True, False):
+                for abort, noclose in ((None, False), (None, True), (0, False), (1, False)):
+                    i += 1
+                    add(mkcase(proto, m, a, cfg=dict(BASE_CFG, chunked=chunked), abort=abort, noclose=noclose,
+                               headers=([{'k': 'tuple', 'n': 2}] if i % 4 == 0 else None),
+                               on_exception=([3, 3] if i % 5 == 0 else None),
+                               on_return=({'sizes': [2], 'lazy': 'list'} if i % 7 == 0 else None),
+                               close_listener=('wsgi' if i % 6 == 0 else None)), 'dump-failure')
+        # a method declared with two return values that returns a sequence of another length, or nothing
+        for mode in ('empty', 'list0', 'one', 'three', 'ok', 'none'):
+            for chunked in (True, False):
+                add(mkcase(proto, 'two', {'mode': mode}, cfg=dict(BASE_CFG, chunked=chunked), abort=[None, 1][chunked]), 'multi-return')
     # MTOM packaging of the response (a serialisation failure when guarded, see fixes/C13-09)
     for chunked in (True, False):
         add(mkcase('soap', 'mt', {'s': 'a'}, cfg=dict(BASE_CFG, chunked=chunked)), 'round4-mtom')
@@ -1300,12 +1372,15 @@ def run(ctx):
             ref = dict(ref, chunks=side['chunks'], sized=True)
         q = model_query(case, side, ref)
         # (MTOM: apply_mtom is Python-2 code; while its failure escapes the callable it is a T3 finding only)
-        if not (case['kind'] == 'rpc' and case['call']['m'] == 'mt' and any(e[0] == 'crash' for e in tr)):
+        # (likewise a multi-return method returning nothing, while that escapes as StopIteration / AssertionError: C13-10)
+        if not (case['kind'] == 'rpc' and case['call']['m'] in ('mt', 'two') and any(e[0] == 'crash' for e in tr)):
             Q.append((q, tr, case))
         ctx.case({'case': {k: v for k, v in case.items() if k != 'tag'}}, nontrivial(case, tr))
         ctx.cov['traces_validated_against_impl'] += 1
         ctx.hit('tag:' + case['tag'])
         ctx.hit('proto:' + case['proto'])
+        if side.get('body_exception'):
+            ctx.hit('body-exception-in-server-hands:' + side['body_exception'])
         if case.get('close_listener'):
             ctx.hit('close-listener:%s' % case['close_listener'])
         if any(e[0] == 'lraise' for e in tr):
